@@ -180,12 +180,12 @@ func checkC09(x *X, c *Case, strict bool) *Outcome {
 	if ex := knownExclusion(x, ref, strict); ex != "" {
 		return &Outcome{Excluded: ex}
 	}
-	if !strict && x.KF["KF-C15-ICLOWER"] && icLitFoldsIntoTable(x) {
+	if !strict && x.KF["KF-C09-ICFOLD"] && icLitFoldsIntoTable(x) {
 		// the optimizer's face of KF-C15-ICLOWER: with -optimize-basic-latin on both sides, a
 		// one-rune ignore-case literal whose rune lies behind Basic Latin while its lower case
 		// lies in it ( "\u212a"i ) is a literal on one side and, folded into a class with its
 		// neighbours, a member the lookup table does not know on the other
-		return &Outcome{Excluded: "KF-C15-ICLOWER"}
+		return &Outcome{Excluded: "KF-C09-ICFOLD"}
 	}
 	if !strict && x.KF["KF-C09-INLINESCOPE"] && g.InlineLabelClash() {
 		// the run-time face of KF-C04-OPTSCOPE (see Grammar.InlineLabelClash)
